@@ -126,7 +126,18 @@ def typeName : Val → String
   | .complex _ _ => "complex" | .str _ => "str" | .bytes _ => "bytes" | .bytearray _ => "bytearray"
   | .list _ => "list" | .tuple _ => "tuple" | .dict _ => "dict"
   | .set _ => "set" | .frozenset _ => "frozenset" | .deque _ => "deque" | .mapOf k _ => k
-  | .opaque t _ => t | .enumMem e _ => e | .sub c _ => c | .obj c _ _ => c | .wrap t _ => t
+  | .opaque t _ => if t.startsWith "Path:" then (t.drop 5).toString else t
+  | .enumMem e _ => e | .sub c _ => c | .obj c _ _ => c | .wrap t _ => t
+
+/-- the C-level type name CPython puts into `TypeError` messages (`tp_name`) -/
+def tpName : Val → String
+  | .opaque "date" _ => "datetime.date"
+  | .opaque "datetime" _ => "datetime.datetime"
+  | .opaque "time" _ => "datetime.time"
+  | .opaque "Decimal" _ => "decimal.Decimal"
+  | .opaque "Pattern" _ => "re.Pattern"
+  | .deque _ => "collections.deque"
+  | v => typeName v
 
 /-- `data_is_sequence`: a real sequence (list, tuple; deque is a `Sequence` too), never str/bytes/bytearray. -/
 def isSeq : Val → Bool
@@ -170,7 +181,16 @@ def pyEq : Val → Val → Bool
   | .deque a, .deque b => pyEqList a b
   | .dict a, .dict b => a.length == b.length && pyEqSubDict a b
   | .opaque t r, .opaque t' r' => t == t' && r == r'
+  | .opaque t r, .int i => (t == "Fraction" || t == "Decimal") && r == toString i
+  | .int i, .opaque t r => (t == "Fraction" || t == "Decimal") && r == toString i
+  | .opaque t r, .bool b => (t == "Fraction" || t == "Decimal") && r == (if b then "1" else "0")
+  | .bool b, .opaque t r => (t == "Fraction" || t == "Decimal") && r == (if b then "1" else "0")
   | .enumMem e i, .enumMem e' i' => e == e' && i == i'
+  | .sub c a, .sub c' b => c == c' && pyEq a b
+  | .set a, .set b => a.length == b.length && pyEqSubset a b
+  | .frozenset a, .frozenset b => a.length == b.length && pyEqSubset a b
+  | .set a, .frozenset b => a.length == b.length && pyEqSubset a b
+  | .frozenset a, .set b => a.length == b.length && pyEqSubset a b
   | .bool a, .bool b => a == b
   | .bool a, .int b => (if a then 1 else 0) == b
   | .int a, .bool b => a == (if b then 1 else 0)
@@ -192,13 +212,14 @@ def pyEqList : List Val → List Val → Bool
   | [], [] => true
   | a :: as, b :: bs => pyEq a b && pyEqList as bs
   | _, _ => false
+/-- every element of the first list has an equal element in the second -/
+def pyEqSubset : List Val → List Val → Bool
+  | [], _ => true
+  | x :: xs, other => other.any (fun y => pyEq x y) && pyEqSubset xs other
 /-- every entry of the first dict has an equal entry in the second (keys and values by `pyEq`). -/
 def pyEqSubDict : List (Val × Val) → List (Val × Val) → Bool
   | [], _ => true
-  | (k, v) :: rest, other => pyEqHasEntry k v other && pyEqSubDict rest other
-def pyEqHasEntry : Val → Val → List (Val × Val) → Bool
-  | _, _, [] => false
-  | k, v, (k', v') :: rest => (pyEq k k' && pyEq v v') || pyEqHasEntry k v rest
+  | (k, v) :: rest, other => other.any (fun p => pyEq k p.1 && pyEq v p.2) && pyEqSubDict rest other
 end
 
 mutual
